@@ -42,6 +42,11 @@ EXTRA = [
     'SELECT * FROM int1.t1 JOIN mindsdb.pred JOIN int2.t2 USING partition_size = 2',
     'SELECT * FROM INT1.t1 JOIN Int2.t2 ON t1.id = t2.id',
     'SELECT * FROM files.f', 'SELECT * FROM views.v JOIN int1.t1 ON v.id = t1.id',
+    # a WITH statement that is pushed down whole, then statements that read a real table of the same name
+    'WITH recent AS (SELECT * FROM int1.t1 WHERE a = 1) SELECT * FROM recent',
+    'SELECT id FROM recent UNION SELECT id FROM recent WHERE id > 5',
+    'SELECT * FROM recent JOIN int1.t1 ON recent.id = t1.id',
+    'SELECT * FROM int1.recent JOIN int2.t2 ON recent.id = t2.id',
     # statements other than SELECT that read a table named like a CTE of an earlier statement
     'INSERT INTO int1.t3 (id) SELECT orders.id FROM orders JOIN int2.t2 ON orders.id = t2.id',
     'CREATE TABLE int1.n (SELECT * FROM orders JOIN int2.t2 ON orders.id = t2.id)',
